@@ -61,7 +61,8 @@ func c09Ns(l []int) string {
 	return vh.CoqList(it)
 }
 
-// the walk of abortTasks over the tasks of a default-lane change (same as abort_walk of the model): does it panic?
+// the walk of abortTasks over the tasks of a default-lane change with ready detection after every write, as the code was
+// before d3068df: would it have panicked? (only used to tag the cases that exercise the repaired shape)
 func c09AbortPanics(sts []int) bool {
 	ready := func(s int) bool { return s == 4 || s == 8 || s == 1 || s == 9 }
 	cur := append([]int{}, sts...)
@@ -299,6 +300,9 @@ func c09Exec(in c09In) vh.Out {
 	if panicked {
 		tags["panicked"] = true
 	}
+	if panicShape && aborted {
+		tags["aborted-transient-ready-shape"] = true
+	}
 	if len(in.Pending) > 0 {
 		tags["pending-predicates"] = true
 	}
@@ -321,7 +325,7 @@ func c09Exec(in c09In) vh.Out {
 	}
 	sort.Strings(tl)
 	obs := map[string]interface{}{"changes_left": cids, "tasks_left": tids, "warnings_left": ows, "notices_left": ons,
-		"panicked": panicked, "panic_shape": panicShape, "aborted": aborted}
+		"panicked": panicked, "aborted": aborted}
 	return vh.Out{Observed: obs, Coq: coq, NonTrivial: len(st.changes) < nChBefore || aborted, Tags: tl}
 }
 
@@ -354,6 +358,10 @@ func c09GenCase(r *vh.Rand) c09In {
 		if c.ReadyAt > -c09Hour {
 			c.ReadyAt = -c09Hour + uniq
 		}
+		// never on an expiry boundary (the change-update notices are recorded at this instant)
+		if h := (-c.ReadyAt + c09Hour/2) / c09Hour; h == 168 || h == 672 {
+			c.ReadyAt += c09Hour
+		}
 		nt := r.Intn(5)
 		ready := r.Chance(3, 5)
 		for j := 0; j < nt; j++ {
@@ -364,7 +372,7 @@ func c09GenCase(r *vh.Rand) c09In {
 			c.Tasks = append(c.Tasks, c09Task{Status: stt, Spawn: c.Spawn + int64(j)})
 		}
 		if !ready && nt > 0 {
-			// make sure it is unready, and (unless it is the recorded witness shape on purpose) that aborting it does not panic
+			// make sure it is unready
 			allReady := true
 			var sts []int
 			for _, t := range c.Tasks {
@@ -376,9 +384,6 @@ func c09GenCase(r *vh.Rand) c09In {
 			if allReady {
 				c.Tasks[len(c.Tasks)-1].Status = 2
 				sts[len(sts)-1] = 2
-			}
-			if c09AbortPanics(sts) {
-				c.Tasks = append([]c09Task{{Status: 3, Spawn: c.Spawn}}, c.Tasks...)
 			}
 		}
 		for a := 0; a < 3; a++ {
@@ -418,7 +423,8 @@ func c09Gen(r *vh.Rand, tier string, n int) []c09In {
 	if n == 0 {
 		n = 120
 	}
-	// DESIGN finding 11 reached through Prune: tasks [Do, Done, Done] of an unready change older than abortWait
+	// regression case for DESIGN finding 11 reached through Prune (repaired in /repo by d3068df): tasks [Do, Done, Done] of an
+	// unready change older than abortWait; Prune must complete
 	ins := []c09In{{Changes: []c09Chg{{Spawn: -100 * c09Hour, ReadyAt: -99 * c09Hour, Tasks: []c09Task{{2, -100 * c09Hour}, {4, -100 * c09Hour}, {4, -100 * c09Hour}}}},
 		PruneWait: 200*c09Hour + c09Hour/2, AbortWait: 50*c09Hour + c09Hour/2, MaxReady: 5}}
 	for i := 0; i < n; i++ {
